@@ -102,7 +102,7 @@ func (e *env) newWorld() *world {
 	return w
 }
 
-func (w *world) Enabled(int) bool { return w.cf != nil }
+func (w *world) Enabled(int) bool { return w.cf != nil && atomic.LoadInt32(&memAbort) == 0 }
 
 func (w *world) Close() {
 	if w.cf != nil {
@@ -588,11 +588,23 @@ func (e *env) observeID(c cache, id int, li int) *diff {
 	if got := c.Contains(uint64(id)); got != (li >= 0) {
 		return mk("contains", "Contains=%v, model entry: %s", got, e.entryName(id, li))
 	}
-	data, cb, sb, err := c.Data(s)
+	var (
+		data     []index.Data
+		cb, sb   uint64
+		err      error
+		sdata    [2][]byte
+		table    [][2]int
+		scb, ssb uint64
+		present  bool
+		serr     error
+	)
+	guarded(func() {
+		data, cb, sb, err = c.Data(s)
+		sdata, table, scb, ssb, present, serr = c.DataForSearch(uint64(id))
+	})
 	if err != nil {
 		return mk("data", "Data returned error %v, model entry: %s", err, e.entryName(id, li))
 	}
-	sdata, table, scb, ssb, present, serr := c.DataForSearch(uint64(id))
 	if serr != nil {
 		return mk("search", "DataForSearch returned error %v, model entry: %s", serr, e.entryName(id, li))
 	}
@@ -708,6 +720,8 @@ func Run(tier string) int {
 	start := time.Now()
 	stopJanitor := startJanitor()
 	defer stopJanitor()
+	stopGuard := startMemGuard()
+	defer stopGuard()
 	e := newEnv(rep, smallLists(tier), crashDepth)
 	defer e.cleanup()
 	st := mc.BFS(e.spec(), depth, maxStates, start.Add(budget), rep)
@@ -742,6 +756,14 @@ func Run(tier string) int {
 		rep.Coverage["transitions"] = st.Transitions + bst.Transitions
 		rep.Coverage["traces_validated_against_impl"] = st.Transitions + bst.Transitions
 		rep.Coverage["evaluations"] = st.Transitions + bst.Transitions
+	}
+	if atomic.LoadInt32(&memAbort) != 0 {
+		rep.Report(mc.Violation{Symptom: "resource.memory-blowup", Key: "exploration abandoned",
+			Msg: fmt.Sprintf("the process grew beyond %d MiB while reading cache entries (Data/DataForSearch allocate buffers whose sizes are read from the file); "+
+				"the exploration was abandoned, the violations reported before it usually show a record read at a wrong offset", memHard>>20)})
+		rep.Coverage["exhaustive"] = false
+		caps, _ := rep.Coverage["caps_hit"].([]string)
+		rep.Coverage["caps_hit"] = append(caps, "memory guard")
 	}
 	stats.fill(rep.Coverage)
 	e.tally.fill(rep.Coverage)
